@@ -53,6 +53,23 @@ checks.update({
              text='Exploration of a restated (view-bounded) liveness: after a random adversarial prefix the scheduler delivers every in-flight message before the next virtual timer (base*2^view) expires; judged: a correct node commits before any correct node exceeds view vmax+2n+2, and every correct acceptor of a post-stabilisation committing view (joined by correct quorum weight) commits. Unbounded "eventually" is out of reach of runtime monitoring; this is the bounded form.', ref='4/C05'),
 })
 
+RT_NOTE = ("Trusted base: Go race detector, Go runtime goroutine profile, HMAC key manager; wall clock only in 10-20 s watchdogs whose firing is reported with goroutine evidence; "
+           "the Logger SPI is used as an iteration clock (worker announces each dequeued message) and as a delay injector, never as a verdict.")
+checks.update({
+ 'C12': dict(engine='sim+rt', note=SIM_NOTE + " " + RT_NOTE, technique='runtime monitor: hostile inputs into real worker loops (panic observer hook, bounded-progress tail) and into the real runtime under -race (recovered-panic scan, victim progress, flood)',
+             text='Exploration: >100k hostile inputs per quick run (random/truncated/corrupted bytes, extreme views/heights, empty ids/proofs, missing blocks, field mutations) at PRNG-chosen points; a panic escaping the worker or recovered while handling a fully decodable message is a violation; attacked nodes must still commit in a quiet stabilised tail; on the real runtime no panic may reach the supervising loops, the victim keeps committing, a 1000+ message flood while the worker is parked must not wedge the main loop.', ref='4/C12'),
+ 'C13': dict(engine='sim+rt', note=SIM_NOTE + " " + RT_NOTE, technique='runtime monitor: offline checker of callback sequences and sampled (height, view) per node, on sim schedules and on the real runtime under -race',
+             text='Exploration: commit-callback and new-round-callback heights strictly increasing, rounds only above committed heights, sampled (height, view) never decreasing, view 0 at a new height; over every message order the sim produces (with syncs and commit failures) and on the real two-goroutine runtime with delays injected around height changes.', ref='4/C13'),
+ 'C14': dict(engine='rt', note=RT_NOTE, technique='runtime monitor: UpdateState sequences on a real node with parking SPI fakes, judged after 64 witnessed worker iterations (logical quiescence)',
+             text='Exploration: stale / equal / newer / burst syncs while SPI calls park on their context and dawdle on release, delays injected between cancel-contexts and forward; the newest eligible sync must have taken effect, stale ones nothing, no first-leader proposal in a round entered by sync, UpdateState returns.', ref='4/C14'),
+ 'C16': dict(engine='rt', note=RT_NOTE, technique='runtime monitor: crash-point style cancellation of live real networks under -race; post-shutdown event scan and goroutine-profile diff',
+             text='Exploration: cancellation at an arbitrary moment of randomized live runs (timers armed, SPI calls in flight, syncs, elections): WaitUntilShutdown returns, API calls with the cancelled context return, no callback / send afterwards, no library goroutine left.', ref='4/C16'),
+})
+checks['C15']['engine']='unit+rt'; checks['C15']['note']=UNIT_NOTE+" porcupine v1.3.0. "+RT_NOTE
+checks['C15']['text']+=' Runtime half: a real node with SPI calls parked on their context; stale triggers must not cancel the current context, the own trigger / a sync must (judged after a main-loop barrier), a block returned under a cancelled context is never broadcast, shutdown releases everything.'
+checks['C19']['engine']='unit+rt'; checks['C19']['note']=UNIT_NOTE+" "+RT_NOTE
+checks['C19']['text']+=' System level: the real trigger decorated in live networks: an election action reaches the term only for the currently registered pair, once per arming, not before the timeout.'
+
 def cmd(pid, tier):
     return "./check %s --tier %s" % (pid, tier)
 
@@ -67,7 +84,8 @@ manifest = {
   "add_only": True,
  },
  "engines": [
-  {"name": "sim", "path": "sim/", "serves_properties": ["C01","C03","C04","C05","C07","C08","C09","C10","C11"], "kind_free_text": "deterministic single-threaded scheduler over N real WorkerLoops (verif hooks), Byzantine adversary with own keys + replay, online monitors over the SPI event log"},
+  {"name": "sim", "path": "sim/", "serves_properties": ["C01","C03","C04","C05","C07","C08","C09","C10","C11","C12","C13","C18"], "kind_free_text": "deterministic single-threaded scheduler over N real WorkerLoops (verif hooks), Byzantine adversary with own keys + replay, online monitors over the SPI event log"},
+  {"name": "rt", "path": "rt/", "serves_properties": ["C12","C13","C14","C15","C16","C19"], "kind_free_text": "real MainLoop + WorkerLoop + timer trigger of 1..5 nodes in child processes built with -race: router with loss/dup/delay, parking SPI fakes, log-keyed delay injection, API driver, main-loop barrier and worker-iteration witness"},
   {"name": "unit", "path": "unit/", "serves_properties": ["C02","C06","C15","C17","C18","C19","C20"], "kind_free_text": "real function / component run on generated and enumerated inputs next to an independent reference oracle (math/big, sequential models, semantic re-parse)"},
  ],
  "checks": [],
